@@ -6,7 +6,7 @@ import tvlib, harness_acd, harness_solvers
 import solverlib as sl
 
 GEN_SOURCES = ["skglm/solvers/gram_cd.py"]
-EXTRA_TARGETS = ["Skel/MockACD.vo", "Skel/CorrSolvers.vo", "Skel/GramCDProofs.vo", "Skel/GroupBCDProofs.vo"]
+EXTRA_TARGETS = ["Skel/MockACD.vo", "Skel/CorrSolvers.vo", "Skel/GramCDProofs.vo", "Skel/GroupBCDProofs.vo", "Skel/ProxNewtonProofs.vo", "Skel/FistaProofs.vo"]
 TRUSTED_BASE = [
     "Coq 8.16.1 kernel (coqc); vm_compute only in correspondence files",
     "no axioms (theorems over an abstract Num type and lists)",
@@ -109,7 +109,7 @@ def _runs(rng):
 def oracle(tier, rng, deep=False):
     failures, samples = [], []
     ev = nontriv = 0
-    nrep = 24 if tier == "quick" and not deep else 150
+    nrep = 24 if tier == "quick" and not deep else (72 if tier == "quick" else 150)   # quick + broken obligation: 3x the quick search
     for _ in range(nrep):
         label, runner, trueobj, tol, inp = _runs(rng)
         sname = label.split(":")[0]
